@@ -17,6 +17,7 @@ Not decided: exact partition at value level, behaviour for negative ids beyond _
 import ast
 
 from vlib import q
+from vlib.pat import Pat, returned
 from vlib.front import unparse, dotted, const_value, AnchorMissing
 from vlib.shape import Shape, Space, Ix, Q, D, BoolT, StrT, NoneT, SizeOf, UNK, is_unk, Arr, Rec, Tup, ListT, DictT, B
 from obligations.shape_tables import (model_attrs, COMMON_SIGS, M, AR, Tmpl, Clu, Chan, Spike, KA, CNT)
@@ -64,35 +65,95 @@ def run(ctx):
                               'np.argsort is not stable here (kind=%s) and the groups are not sorted afterwards: groups are not increasing' % _kind(spc))
         else:
             ctx.undecided('C07.A1', spc, '%s: result %s' % (lab, res))
-    # structural pairing of keys and ranges
+    # structural pairing of keys and ranges (patterns with metavariables for the local names)
+    P = Pat(spc)
+    srt = P.stmt('V_perm = np.argsort(%s, REST)' % scp) or P.stmt('V_perm = %s.argsort(REST)' % scp) or P.stmt('V_perm = np.argsort(%s)' % scp)
+    lab_perm = P.stmt('%s = %s[V_perm]' % (scp, scp)) or P.stmt('V_labels = %s[V_perm]' % scp)
+    labels = scp if P.name('V_labels') is None else P.name('V_labels')
+    ids_perm = P.stmt('V_vals = %s[V_perm]' % sip) or P.stmt('V_vals = V_perm if %s is None else %s[V_perm]' % (sip, sip)) or \
+        P.stmt('V_vals = %s[V_perm] if %s is not None else V_perm' % (sip, sip))
+    ifexp_default = ids_perm is not None and isinstance(ids_perm.value, ast.IfExp)
+    if srt is None:
+        ctx.undecided('C07.A1', spc, 'the ordering of the spikes by cluster (argsort of the labels) was not recognised')
+    else:
+        unperm_ids = P.stmt('V_vals = %s' % sip) if ids_perm is None else None
+        if lab_perm is not None and ids_perm is not None:
+            ctx.holds('C07.A1', spc, 'spike ids and labels are reordered by the same permutation', ids_perm)
+        elif lab_perm is None or unperm_ids is not None:
+            ctx.violated('C07.A1', spc, srt, 'spike ids and labels are not reordered by the same permutation (%s)' %
+                         ('the labels are not reordered' if lab_perm is None else 'the spike ids are used in their original order'))
+        else:
+            ctx.undecided('C07.A1', spc, 'reordering of the spike ids by the sort permutation not recognised', srt)
+    # boundaries: position 0 and every increase of the sorted labels
+    d0 = P.stmt('V_diff[0] = E_first')
+    d1 = P.stmt('V_diff[1:] = np.diff(%s)' % labels)
+    bnd = None
+    for pat_ in ('V_bnd = np.nonzero(V_diff > 0)[0]', 'V_bnd = np.flatnonzero(V_diff > 0)', 'V_bnd = np.where(V_diff > 0)[0]', 'V_bnd = np.nonzero(V_diff != 0)[0]', 'V_bnd = np.nonzero(V_diff)[0]',
+                 'V_bnd = np.flatnonzero(V_diff)'):
+        bnd = bnd or P.stmt(pat_)
+    if d0 is None or d1 is None or bnd is None:
+        ctx.undecided('C07.A1', spc, 'computation of the group boundaries (diff of the sorted labels) not recognised')
+    else:
+        first = const_value(d0.value)
+        ctx.check(isinstance(first, (int, float)) and not isinstance(first, bool) and first > 0, 'C07.A1', spc, d0, 'group boundaries = position 0 and every position where the sorted label increases',
+                  'boundaries are not {0} + positions where the sorted labels increase: the first element is marked with %r, so the first group has no boundary at position 0' % (first,))
+    keys = P.stmt('V_keys = %s[V_bnd]' % labels) if bnd is not None else None
     dcs = spc.nodes(ast.DictComp)
-    okp = False
-    if dcs:
+    if not dcs or keys is None or ids_perm is None:
+        ctx.undecided('C07.A1', spc, 'the dictionary comprehension pairing keys with group ranges was not recognised')
+    else:
         dc = dcs[0]
-        i = unparse(dc.generators[0].target)
-        k, v = unparse(dc.key).replace(' ', ''), unparse(dc.value).replace(' ', '')
-        it = unparse(dc.generators[0].iter).replace(' ', '')
-        import re
-        m1 = re.fullmatch(r'(\w+)\[%s\]' % i, k)
-        m2 = re.fullmatch(r'(\w+)\[(\w+)\[%s\]:(\w+)\[%s\+1\]\]' % (i, i), v)
-        if m1 and m2 and m2.group(2) == m2.group(3):
-            keys, vals, bnd = m1.group(1), m2.group(1), m2.group(2)
-            kd = spc.unique_def(keys)
-            okp = kd is not None and unparse(kd).replace(' ', '').endswith('[%s]' % bnd) and it == 'range(len(%s)-1)' % keys
-            last = [a for a in spc.nodes(ast.Assign) if isinstance(a.targets[0], ast.Subscript) and unparse(a.targets[0]).replace(' ', '').endswith('[%s[-1]]' % keys)]
-            okl = bool(last) and unparse(last[0].value).replace(' ', '') == '%s[%s[-1]:]' % (vals, bnd)
-            ctx.check(okl, 'C07.A1', spc, last[0] if last else '_spikes_per_cluster', 'the last cluster gets the spikes from the last boundary to the end', 'the last group is not values[last boundary:] under the last key')
-    ctx.check(okp, 'C07.A1', spc, dcs[0] if dcs else '_spikes_per_cluster', 'key i is the cluster at boundary i and its group is the range boundary i .. boundary i+1 of the same boundary array',
-              'keys and group ranges are not paired through one boundary array')
-    a = {unparse(x.targets[0]).replace(' ', ''): unparse(x.value).replace(' ', '') for x in spc.nodes(ast.Assign)}
-    okb = a.get('diff[0]') == '1' and a.get('diff[1:]') == 'np.diff(%s)' % scp and any(v in ('np.nonzero(diff>0)[0]', 'np.flatnonzero(diff>0)', 'np.where(diff>0)[0]', 'np.nonzero(diff!=0)[0]') for v in a.values())
-    ctx.check(okb, 'C07.A1', spc, 'boundaries', 'group boundaries = position 0 and every position where the sorted label increases', 'boundaries are not {0} + positions where the sorted labels increase')
-    perm_same = [x for x in spc.nodes(ast.Assign) if isinstance(x.value, ast.Subscript) and unparse(x.value.slice) == 'rel_spikes']
-    ctx.check({unparse(x.value.value) for x in perm_same} == {sip, scp}, 'C07.A1', spc, 'same permutation', 'spike ids and labels are reordered by the same permutation', 'spike ids and labels are not reordered by the same permutation')
-    dflt = [x for x in spc.nodes(ast.Assign) if unparse(x.targets[0]) == sip]
-    ctx.check(bool(dflt) and unparse(dflt[0].value).replace(' ', '').startswith('np.arange(len(%s))' % scp), 'C07.A1', spc, dflt[0] if dflt else 'default ids', 'default spike ids are 0..n-1', 'default spike ids are not np.arange(len(spike_clusters))')
-    emp = [i for i in spc.nodes(ast.If) if any(isinstance(r, ast.Return) and unparse(r.value) == '{}' for r in i.body)]
-    ctx.check(bool(emp), 'C07.A1', spc, emp[0].test if emp else 'empty', 'no spikes -> no groups', 'the empty input does not return an empty dictionary')
+        PP = Pat(spc, P.b)
+        tgt_ok = PP.m('V_i', dc.generators[0].target)
+        good = tgt_ok and PP.m('V_keys[V_i]', dc.key) and PP.m('V_vals[V_bnd[V_i]:V_bnd[V_i + 1]]', dc.value) and \
+            (PP.m('range(len(V_keys) - 1)', dc.generators[0].iter) or PP.m('range(len(V_bnd) - 1)', dc.generators[0].iter))
+        names_used = {n.id for n in ast.walk(dc) if isinstance(n, ast.Name)}
+        vocab = {P.name('V_keys'), P.name('V_vals'), P.name('V_bnd'), P.name('V_perm'), labels, 'range', 'len', unparse(dc.generators[0].target)}
+        bad = not good and names_used <= vocab
+        if good:
+            ctx.holds('C07.A1', spc, 'key i is the cluster at boundary i and its group is the range boundary i .. boundary i+1 of the same boundary array', dc)
+        elif bad:
+            ctx.violated('C07.A1', spc, dc, 'keys and group ranges are not paired through one boundary array: `%s: %s for %s in %s`' %
+                         (unparse(dc.key), unparse(dc.value), unparse(dc.generators[0].target), unparse(dc.generators[0].iter)))
+        else:
+            ctx.undecided('C07.A1', spc, 'dictionary comprehension not in a recognised form', dc)
+        last = P.stmt('ANY[V_keys[-1]] = E_lastgroup')
+        if last is None:
+            only_loop = Pat(spc, P.b).m('range(len(V_keys))', dc.generators[0].iter)
+            (ctx.undecided if only_loop else ctx.violated)('C07.A1', spc, *(('the last group is produced inside the comprehension (not decided)',) if only_loop else
+                                                                              (dc, 'the last cluster (from the last boundary to the end) is never added to the dictionary')))
+        else:
+            lg = Pat(spc, P.b).m('V_vals[V_bnd[-1]:]', last.value)
+            same_vocab = {n.id for n in ast.walk(last.value) if isinstance(n, ast.Name)} <= vocab
+            if lg:
+                ctx.holds('C07.A1', spc, 'the last cluster gets the spikes from the last boundary to the end', last)
+            elif same_vocab:
+                ctx.violated('C07.A1', spc, last, 'the last group is `%s`, not the reordered spike ids from the last boundary to the end' % unparse(last.value))
+            else:
+                ctx.undecided('C07.A1', spc, 'last group not in a recognised form', last)
+    dflt = [i for i in spc.nodes(ast.If) if Pat().m('%s is None' % sip, i.test)]
+    dstm = [a for i in dflt for a in i.body if isinstance(a, ast.Assign) and Pat().m(sip, a.targets[0])]
+    if ifexp_default and not dstm:
+        ctx.holds('C07.A1', spc, 'default spike ids are 0..n-1 (the sort permutation itself is used when no ids are given)', ids_perm)
+    elif not dstm:
+        ctx.undecided('C07.A1', spc, 'default of the spike ids not recognised')
+    else:
+        v = dstm[0].value
+        good = Pat().any(['np.arange(len(%s)).astype(ANY)' % scp, 'np.arange(len(%s))' % scp, 'np.arange(%s.shape[0])' % scp, 'np.arange(len(%s), REST)' % scp, 'np.arange(%s.size)' % scp], v)
+        bad = not good and any(isinstance(c, ast.Call) and dotted(c.func) in ('np.arange', 'range') for c in ast.walk(v))
+        if good:
+            ctx.holds('C07.A1', spc, 'default spike ids are 0..n-1', dstm[0])
+        elif bad:
+            ctx.violated('C07.A1', spc, dstm[0], 'default spike ids are `%s`, not 0..n-1' % unparse(v))
+        else:
+            ctx.undecided('C07.A1', spc, 'default spike ids not in a recognised form', dstm[0])
+    emp = [(r_, x) for r_, x in returned(spc) if isinstance(x, ast.Dict) and not x.keys]
+    emp += [(r_, x) for r_, x in returned(spc) if isinstance(x, ast.Call) and dotted(x.func) == 'dict' and not x.args and not x.keywords]
+    guard = [i for r_, x in emp for i in spc.ancestors(r_) if isinstance(i, ast.If) and 'len(' in unparse(i.test)]
+    if emp and guard:
+        ctx.holds('C07.A1', spc, 'no spikes -> no groups', guard[0].test)
+    else:
+        ctx.undecided('C07.A1', spc, 'the early return of an empty dictionary for empty input was not recognised')
     # ---- A2
     sic = repo.func(AR, '_spikes_in_clusters')
     S = Shape(repo, inline_depth=1)
@@ -101,11 +162,19 @@ def run(ctx):
     vals = [v for n, v in S.run(sic, {sic.params[0]: Arr((Spike,), Ix(Clu)), sic.params[1]: Arr((B('Q'),), Ix(Clu))}) if isinstance(v, Arr) and v.axes and v.axes[0].kind == 'Sub']
     ok = bool(vals) and isinstance(vals[0].elem, Ix) and vals[0].elem.space is Spike and vals[0].sorted
     ctx.check(ok, 'C07.A2', sic, '_spikes_in_clusters', 'spikes of a set of clusters = increasing indices where the assignment is in the set', '_spikes_in_clusters does not return the increasing indices of the members (%s)' % vals)
-    r = [x for x in sic.returns() if x.value is not None]
-    t = unparse(r[-1].value).replace(' ', '') if r else ''
-    ctx.check(t in ('np.nonzero(np.isin(%s,%s))[0]' % tuple(sic.params[:2]), 'np.flatnonzero(np.isin(%s,%s))' % tuple(sic.params[:2]), 'np.where(np.isin(%s,%s))[0]' % tuple(sic.params[:2]),
-                    'np.nonzero(np.in1d(%s,%s))[0]' % tuple(sic.params[:2])), 'C07.A2', sic, r[-1] if r else '_spikes_in_clusters', 'membership test of the assignment vector in the requested ids',
-              'the selection is `%s`, not nonzero(isin(assignments, requested))' % t)
+    a0_, a1_ = sic.params[:2]
+    rvs = [x for _, x in returned(sic)]
+    goods = ['np.nonzero(np.isin(%s, %s))[0]' % (a0_, a1_), 'np.flatnonzero(np.isin(%s, %s))' % (a0_, a1_), 'np.where(np.isin(%s, %s))[0]' % (a0_, a1_),
+             'np.nonzero(np.in1d(%s, %s))[0]' % (a0_, a1_), 'np.flatnonzero(np.in1d(%s, %s))' % (a0_, a1_)]
+    g = any(Pat().any(goods, x) for x in rvs)
+    b_ = not g and any(isinstance(n, ast.UnaryOp) and isinstance(n.op, (ast.Invert, ast.Not)) for x in rvs for n in ast.walk(x)) or \
+        (not g and any(Pat().any([t_.replace('(%s, %s)' % (a0_, a1_), '(%s, %s)' % (a1_, a0_)) for t_ in goods], x) for x in rvs))
+    if g:
+        ctx.holds('C07.A2', sic, 'membership test of the assignment vector in the requested ids', rvs[-1])
+    elif b_:
+        ctx.violated('C07.A2', sic, rvs[-1], 'the selection is `%s`, not nonzero(isin(assignments, requested))' % unparse(rvs[-1]))
+    else:
+        ctx.undecided('C07.A2', sic, 'the membership selection is not in a recognised form')
     cls = repo.cls(M, 'TemplateModel')
     for mname, tab, kind in (('get_cluster_spikes', 'spike_clusters', Clu), ('get_template_spikes', 'spike_templates', Tmpl)):
         m = repo.lookup_method(cls, mname)
@@ -132,20 +201,41 @@ def run(ctx):
                   'grouped_mean has dimension %s: a sum over spikes (count factor) is not a mean' % res.elem)
     else:
         ctx.undecided('C07.A3', gm, 'grouped_mean returns %s' % res)
-    a = {unparse(x.targets[0]).replace(' ', ''): unparse(x.value).replace(' ', '') for x in gm.nodes(ast.Assign)}
-    okg = a.get('cluster_ids') == '_unique(%s)' % gm.params[1] and a.get('spike_clusters_rel') == '_index_of(%s,cluster_ids)' % gm.params[1] and a.get('spike_counts') == 'np.bincount(spike_clusters_rel)'
-    ctx.check(okg, 'C07.A3', gm, 'grouped_mean grouping', 'groups = present ids in increasing order; counts per relative id', 'grouped_mean does not group by the positions of the present ids')
+    PG = Pat(gm)
+    g1 = PG.stmt('V_ids = _unique(%s)' % gm.params[1]) or PG.stmt('V_ids = np.unique(%s)' % gm.params[1])
+    g2 = PG.stmt('V_rel = _index_of(%s, V_ids)' % gm.params[1]) if g1 is not None else None
+    g3 = PG.stmt('V_cnt = np.bincount(V_rel)') or PG.stmt('V_cnt = np.bincount(V_rel, REST)') if g2 is not None else None
+    if g1 is not None and g2 is not None and g3 is not None:
+        ctx.holds('C07.A3', gm, 'groups = present ids in increasing order; counts per relative id', g2)
+    elif g1 is not None and g2 is None and PG.stmt('V_rel = _index_of(ANY, ANY)') is not None:
+        ctx.violated('C07.A3', gm, PG.stmt('V_rel = _index_of(ANY, ANY)'), 'grouped_mean does not relabel the spikes against the present ids it averages over')
+    else:
+        ctx.undecided('C07.A3', gm, 'grouping of grouped_mean not in a recognised form')
     un = repo.func(AR, '_unique')
-    r = [x for x in un.returns() if x.value is not None]
-    t = unparse(un.expand(r[-1].value)).replace(' ', '') if r else ''
-    a = {unparse(x.targets[0]).replace(' ', ''): unparse(x.value).replace(' ', '') for x in un.nodes(ast.Assign)}
-    ok = t in ('np.nonzero(np.bincount(x))[0]', 'np.nonzero(bc)[0]') and any(v == 'x[x>=0]' for v in a.values())
-    ctx.check(ok, 'C07.A3', un, r[-1] if r else '_unique', '_unique = increasing ids with a non-zero count among the non-negative entries', '_unique is not nonzero(bincount(x[x >= 0]))')
+    PU = Pat(un)
+    p0 = un.params[0]
+    filt_good = PU.stmt('%s = %s[%s >= 0]' % (p0, p0, p0)) or PU.stmt('V_x = %s[%s >= 0]' % (p0, p0)) or PU.stmt('%s = %s[%s > -1]' % (p0, p0, p0))
+    filt_bad = PU.stmt('%s = %s[%s > 0]' % (p0, p0, p0)) or PU.stmt('V_x = %s[%s > 0]' % (p0, p0)) or PU.stmt('%s = %s[%s >= 1]' % (p0, p0, p0))
+    rvs = [x for _, x in returned(un)]
+    nz = any(Pat().any(['np.nonzero(np.bincount(ANY))[0]', 'np.flatnonzero(np.bincount(ANY))', 'np.where(np.bincount(ANY))[0]', 'np.nonzero(np.bincount(ANY) > 0)[0]', 'np.unique(ANY)'], x) for x in rvs)
+    if filt_good is not None and nz:
+        ctx.holds('C07.A3', un, '_unique = increasing ids with a non-zero count among the non-negative entries', filt_good)
+    elif filt_bad is not None:
+        ctx.violated('C07.A3', un, filt_bad, '_unique keeps `%s`: id 0 is a valid cluster id and must be kept (only negative ids are dropped)' % unparse(filt_bad.value))
+    else:
+        ctx.undecided('C07.A3', un, '_unique not in a recognised form')
     fl = repo.func(AR, '_flatten_per_cluster')
-    r = [x for x in fl.returns() if x.value is not None]
-    t = unparse(r[-1].value).replace(' ', '') if r else ''
-    ctx.check(t.startswith('np.unique(np.concatenate(list(%s.values())))' % fl.params[0]), 'C07.A3', fl, r[-1] if r else '_flatten_per_cluster', 'flatten = sorted distinct union of the groups',
-              '_flatten_per_cluster is not np.unique(np.concatenate(groups))')
+    rvs = [x for _, x in returned(fl)]
+    fp = fl.params[0]
+    cat = 'np.concatenate(list(%s.values()))' % fp
+    good = any(Pat().any(['np.unique(%s).astype(ANY)' % cat, 'np.unique(%s)' % cat, 'np.unique(np.concatenate(tuple(%s.values())))' % fp, 'np.unique(np.hstack(list(%s.values())))' % fp], x) for x in rvs)
+    bad = not good and any(Pat().any(['np.sort(%s).astype(ANY)' % cat, 'np.sort(%s)' % cat, '%s.astype(ANY)' % cat, cat, 'sorted(%s)' % cat], x) for x in rvs)
+    if good:
+        ctx.holds('C07.A3', fl, 'flatten = sorted distinct union of the groups', rvs[-1])
+    elif bad:
+        ctx.violated('C07.A3', fl, rvs[-1], '_flatten_per_cluster is `%s`: spikes present in several groups are repeated (np.unique of the concatenation is required)' % unparse(rvs[-1])[:90])
+    else:
+        ctx.undecided('C07.A3', fl, '_flatten_per_cluster not in a recognised form')
     from obligations.shape_tables import check_index_of
     check_index_of(ctx, 'C07.A3')
     if nrep == 0:
